@@ -14,6 +14,7 @@ _NTU = 12
 _INST = [c['name'] for c in _m.configs()]
 
 PROP = dict(
+    technique='model-based stateful property testing over 214 generated template instantiations with slot-isolation oracles (exact allocation, poisoning, storage shadow)',
     generate=[['c09_packed_inst.py', str(_NTU)]],
     harness=['c09_packed.c'] + ['gen:c09_inst_%d.c' % k for k in range(_NTU)],
     level_text=('generated-input search over %d compile-time instantiations '
